@@ -5,12 +5,32 @@ HERE = os.path.dirname(os.path.abspath(__file__))
 VERIF = os.path.dirname(HERE)
 
 CLAIMED = {
+ "C03": ("proof", "Unbounded theorems about the model of CMsgPackReadObjectScope: cursor invariant, cyclic key scan with wrap-around, every request history answered as the abstract finite map, destructor leaves the reader behind the object; real scopes driven with request histories from memory and streams and judged against an abstract data model.",
+         "token-level reader abstraction (byte level: C07 model); JSON/XML/CSV lookups exercised only; one recorded finding (array scope left partly read)"),
+ "C04": ("proof", "Theorems for all 64 integer type pairs and all values (exact or out_of_range, never wrapped), bool and float-source branches, ConvertByPolicy total case split; floating-point operations are a parameter with explicit laws; 8-bit sources exhaustive in the correspondence run.",
+         "conversion layer and text cells (archive positions of MsgPack: C07; JSON/XML positions pending); IEEE laws assumed, checked on samples; one recorded finding (non-finite double to float)"),
+ "C05": ("proof", "Reader level: SkipValue equals 'consume one Spec object' for all inputs/positions/nestings, mismatch and overflow skip consume exactly one value; scope level: array element index and reader position stay in step, object cursor invariant re-established after any skipped member.",
+         "MsgPack only at proof level; DOM archives advance an iterator before type checks (exercised by C08 ops)"),
+ "C06": ("proof", "Every writer entry point decodes back under the independent Spec decoder to the intended token in the most compact format (all values); timestamp layouts; string and stream writers compared byte for byte.",
+         "token level; whole-document balance (field counting) exercised by round-trip ops; recorded finding timestamp-96 field order"),
+ "C07": ("proof", "ByteCodeTable (regenerated) equals the spec's format table for all 256 bytes; all 10 integer formats x 10 targets at any position; floats, headers of every width; no strict prefix of a token is a token; stream reader compared with the string reader on every op.",
+         "value readers proved on well-formed encodings + truncation; stream reader tied by correspondence only; recorded findings: timestamp-96 order, nanoseconds not validated, NaN/Inf into float"),
+ "C09": ("proof", "For every allowed separator and every table with arbitrary cells the RFC-4180 recogniser reads the writer's output back exactly; the reader conforms to the recogniser on every rendering (any quoting, LF/CRLF, final break, column order) and every by-key/by-index script; width mismatch rejected.",
+         "cells are strings (numbers/dates via C16/C14); one recorded finding (empty array does not round-trip)"),
+ "C10": ("proof", "Refinement: CBinaryStreamReader equals a plain cursor for every cache size N>0, byte string and operation history; CSV stream reader refines the memory reader for every chunk size, text and script; stream writers equal string writers. MsgPack/CSV documents run from memory and from streams across the 256-byte boundary.",
+         "seekable istringstream; MsgPack stream reader tied to the string reader by correspondence; JSON/XML streams are third-party"),
  "C11": ("proof", "Unbounded theorems (all scalar lists x 9 width pairs x policies x marks x prior output) about the Lean model of convert_utf.h; model tied to the code by the correspondence run (thorough: every one of the 1,112,064 scalars) and regenerated constants.",
          "hand-written model of Utf8/Utf16/Utf32 Decode/Encode/Transcode and Memory::Reverse; little-endian host"),
  "C12": ("proof", "Unbounded theorems for ALL code-unit sequences: iterator in bounds, termination (total functions), output = scalars+marks only (hence well-formed), count = marks, ThrowError never accepts ill-formed UTF-8; Lean Spec (Table 3-7 segmentation) judges every implementation answer.",
          "hand-written model; oracle interpretation of 'one or more marks per ill-formed run'; one recorded finding (pinned tail-swallowing)"),
  "C13": ("proof", "Progress + termination theorem of the chunked reader for every stream, chunk size >= 32, policy; BOM table and BOM detection theorems over regenerated constants; ambiguity theorem; Spec encoders judge reader/writer answers at every chunk alignment/truncation.",
-         "hand-written model of DetectEncoding/CEncodedStreamReader/Writer; istream modelled as (bytes, eof) with short-read-sets-eof; chunk-independence of the decoded text is validated by correspondence, not yet proved"),
+         "hand-written model of DetectEncoding/CEncodedStreamReader/Writer; istream modelled as (bytes, eof); chunk-independence of the decoded text validated by correspondence, not yet proved"),
+ "C16": ("proof", "Every integer of every width prints to text that parses back to itself (all string widths); for every string the parser's answer is the Spec's classification (value of the leading literal / out_of_range / invalid_argument); bool parser; printing fits the buffer. Floats: exact-arithmetic reference vs libstdc++ on all 2^32 float patterns (thorough).",
+         "libstdc++ to_chars/from_chars for floats assumed (tested exhaustively for float32); std::isdigit on ASCII"),
+ "C19": ("proof", "Non-interference theorem for every schedule of threads with footprints confined to private locations and shared constants; side conditions regenerated from the clang AST (all statics immutable or written only during static initialisation) and from objdump (writable-section symbols); TSan stress compares every result with the sequential run.",
+         "PARTIAL: the memory-model behaviour of the compiled code is only exhibited by the ThreadSanitizer validation run; AST inventory translator trusted"),
+ "C20": ("proof", "Scope-lifetime machine: with infallible destructors no program/fault schedule terminates and the first failure surfaces; destructor inventory with transitive may-throw analysis regenerated from the clang AST (exactly the two recorded destructors can throw); fault enumeration (every truncation, k-th allocation failure, stream failure at every offset, mid-save errors) on 16 scenarios.",
+         "PARTIAL: allocator and iostream failure behaviour are runtime validation; two recorded findings (throwing destructors), one JSON finding"),
 }
 NOT_YET = "check not built yet in this round (work in progress; see DESIGN.md §9)"
 
